@@ -182,6 +182,45 @@ struct TrkP {
 static_assert(std::is_trivially_default_constructible_v<TrkP> && std::is_trivially_destructible_v<TrkP>
               && std::is_trivially_copy_assignable_v<TrkP> && !std::is_trivially_copy_constructible_v<TrkP>);
 
+// the same as an alternative of a variant / optional / expected (op `pown`)
+template <int Tag>
+struct TP {
+    static constexpr bool copyable = true;
+    static constexpr bool movable  = false;
+    static constexpr int tag       = Tag;
+    int v;
+    TP() = default;
+    explicit TP(int x) noexcept : v{x} { log(CV, this, nullptr, x, Tag); }
+    TP(TP const& o) noexcept : v{o.v} { log(CC, this, &o, v, Tag); }
+    auto operator=(TP const& o) noexcept -> TP& = default;
+    auto operator=(int x) noexcept -> TP& { v = x; log(AV, this, nullptr, x, Tag); return *this; }
+};
+static_assert(std::is_trivially_default_constructible_v<TP<0>> && std::is_trivially_destructible_v<TP<0>>
+              && std::is_trivially_copy_assignable_v<TP<0>> && !std::is_trivially_copy_constructible_v<TP<0>>);
+
+// an element type whose copy / move CONSTRUCTORS throw when the fuse has burnt down (op `uhist` / `umon`):
+// fuse = k: k constructions succeed, the (k+1)-th throws (and creates no object, so it logs nothing); fuse < 0: never
+inline int g_fuse = -1;
+struct TrkX {
+    int v;
+    explicit TrkX(int x) : v{x} { log(CV, this, nullptr, x); }
+    TrkX(TrkX const& o) : v{o.v}
+    {
+        if (g_fuse == 0) { throw 1; }
+        if (g_fuse > 0) { --g_fuse; }
+        log(CC, this, &o, v);
+    }
+    TrkX(TrkX&& o) : v{o.v}
+    {
+        if (g_fuse == 0) { throw 1; }
+        if (g_fuse > 0) { --g_fuse; }
+        o.v = moved_marker;
+        log(CM, this, &o, v);
+    }
+    auto operator=(TrkX const& o) -> TrkX& { v = o.v; log(AC, this, &o, v); return *this; }
+    ~TrkX() { log(DT, this, nullptr, v); }
+};
+
 // derived element types: the members of a pair<Der<T0>, Der<T1>> convert to T0 / T1 (slicing copy / move)
 template <typename B>
 struct Der : B {
